@@ -191,11 +191,109 @@ def r_ziptable(P, chk):
                 ok = ok and f.cfg.dominates(ad["call"]["i"], fin[0]["i"])
         ob("%s: archive finalised after all members into result->str / result->currentStringLength on every path" % f.name, ok,
            "zip:finalize:%s" % f.name, f.where())
+    # ---------------- compression argument: a level, never a miniz flag (the data handed over are raw bytes)
+    def flag_values(g, e, depth=0):
+        """constants that can reach the level_and_flags argument (None in the set = unknown)"""
+        cv = const_value(e)
+        if cv is not None:
+            return {cv}
+        x = strip(e)
+        if x is None or depth > 4:
+            return {None}
+        if x["k"] == "ConditionalOperator":
+            return flag_values(g, x["c"][1], depth + 1) | flag_values(g, x["c"][2], depth + 1)
+        if x["k"] == "BinaryOperator" and x["op"] == "|":
+            a, b = flag_values(g, x["c"][0], depth + 1), flag_values(g, x["c"][1], depth + 1)
+            return {None if (p is None or q is None) else (p | q) for p in a for q in b}
+        if x["k"] == "DeclRefExpr" and x.get("dk") == "Var":
+            out = set()
+            for y in g.walk():
+                if y["k"] == "VarDecl" and y.get("n") == x["n"] and y.get("c") and y["c"][0] is not None:
+                    out |= flag_values(g, y["c"][0], depth + 1)
+                elif y["k"] == "BinaryOperator" and y["op"] == "=" and key(y["c"][0]) == x["n"]:
+                    out |= flag_values(g, y["c"][1], depth + 1)
+                elif y["k"] == "CompoundAssignOperator" and key(y["c"][0]) == x["n"]:
+                    out.add(None)
+            return out or {None}
+        if x["k"] == "DeclRefExpr" and x.get("dk") == "Parm":
+            pi = [i for i, q in enumerate(g.params) if q[0] == x["n"]]
+            out = set()
+            for h in P.all_funcs:
+                if not P.first_party(h):
+                    continue
+                for c in h.calls(g.name):
+                    if P.resolve(h, g.name) is g and pi and 1 + pi[0] < len(c["c"]):
+                        out |= flag_values(h, c["c"][1 + pi[0]], depth + 1)
+            return out or {None}
+        return {None}
+    n_lv = 0
+    for g in P.all_funcs:
+        if not P.first_party(g) or g.unit.base in ("miniz.c", "zip.c"):
+            continue
+        for c in g.calls("mz_zip_writer_add_mem"):
+            n_lv += 1
+            vals = flag_values(g, c["c"][5])
+            bad = sorted(v for v in vals if v is not None and not 0 <= v <= 10)
+            okf = None not in vals and not bad
+            ob("%s: member added with a plain compression level %s" % (g.name, sorted(v for v in vals if v is not None)), okf,
+               "zip:level:%s" % g.name, g.where(c),
+               "%s can pass %s as the level_and_flags argument of mz_zip_writer_add_mem: with a miniz flag such as "
+               "MZ_ZIP_FLAG_COMPRESSED_DATA (0x400) the raw bytes are written as if they were a deflate stream, with size 0 and CRC 0 - "
+               "the member cannot be extracted" % (g.name, [hex(v) for v in bad] if bad else "a value that could not be resolved"))
+    chk.floor(rid, n_lv, 10, "mz_zip_writer_add_mem call sites")
+    # ---------------- the method recorded in the headers is derived from the store decision: that decision is final by then
+    from .rules_mem import _reaches
+    n_m = 0
+    for g in P.all_funcs:
+        if g.unit.base != "miniz.c":
+            continue
+        hdr = [c for c in g.calls("mz_zip_writer_create_local_dir_header") if len(c["c"]) > 8]
+        if not hdr:
+            continue
+        gpos = g.cfg.positions()
+        for M in sorted({key(c["c"][8]) for c in hdr}):
+            defs = [x for x in g.walk() if x["k"] == "BinaryOperator" and x["op"] == "=" and key(x["c"][0]) == M and x.get("i") in gpos]
+            for D in defs:
+                conds = [a["c"][0] for a in g.ancestors(D) if a["k"] == "IfStmt"]
+                V = {y["n"] for cnd in conds for y in walk(cnd) if y["k"] == "DeclRefExpr" and y.get("dk") == "Var"}
+                if not V:
+                    continue
+                n_m += 1
+                late = [x for x in g.walk() if (x["k"] == "BinaryOperator" and x["op"] == "=" or x["k"] == "CompoundAssignOperator")
+                        and key(x["c"][0]) in V and x.get("i") in gpos and x is not D and _reaches(g, gpos, D, x, [])]
+                ob("%s: `%s` is derived from %s, none of which is assigned again afterwards" % (g.name, M, sorted(V)), not late,
+                   "zip:method:%s" % g.name, g.where(late[0]) if late else g.where(D),
+                   "%s derives the header field `%s` from %s at line %d but assigns `%s` again at line %d: the headers then describe a "
+                   "member differently from how its data were written (a stored member labelled deflated fails its CRC)" % (
+                       g.name, M, sorted(V), D["l"], key(late[0]["c"][0]) if late else "?", late[0]["l"] if late else 0))
+    chk.floor(rid, n_m, 1, "derivations of the zip method field in miniz")
     # ---------------- asset table
     an = P.func("asset_new", "writer.c")
     ob("assets: packaged file names come from uuid_new()", any(True for _ in an.calls("uuid_new")) and any(
         x["k"] == "BinaryOperator" and x["op"] == "=" and key(x["c"][0]).endswith("->asset_path") and
         (strip(x["c"][1]) or {}).get("callee") == "uuid_new" for x in an.walk()), "zip:asset:uuid", an.where())
+    # uuid_new() draws from rand(), which label_from_header re-seeds: a name must be checked against the table before it is used
+    def compares_paths(g, depth=0):
+        for c in g.calls():
+            if c.get("callee") == "strcmp" and any(key(a).endswith("->asset_path") for a in c["c"][1:]):
+                return True
+            h = P.resolve(g, c.get("callee") or "")
+            if h is not None and P.first_party(h) and h is not g and depth < 1 and compares_paths(h, depth + 1):
+                return True
+        return False
+    redraw = False
+    for w in an.walk():
+        if w["k"] in ("WhileStmt", "DoStmt"):
+            cond = w["c"][0] if w["k"] == "WhileStmt" else w["c"][1]
+            body = w["c"][1] if w["k"] == "WhileStmt" else w["c"][0]
+            tests = [y for y in walk(cond) if y["k"] == "CallExpr" and y.get("callee") and P.resolve(an, y["callee"]) is not None
+                     and compares_paths(P.resolve(an, y["callee"])) and any(key(a).endswith("->asset_path") for a in y["c"][1:])]
+            if tests and any(y["k"] == "CallExpr" and y.get("callee") == "uuid_new" for y in walk(body)):
+                redraw = True
+    ob("assets: a packaged name is drawn again while another asset in the table already uses it", redraw, "zip:asset:unique", an.where(),
+       "asset_new hands out uuid_new() names without checking the asset table: rand() is re-seeded by label_from_header for every "
+       "heading under --unique / --random, so two assets separated by a heading get the same name and the package two members "
+       "with that name")
     ex = P.func("mmd_engine_export_token_tree", "writer.c")
     ob("assets: the engine keeps the scratch pad's asset table for the package builder (e->asset_hash = scratch->asset_hash)",
        any(x["k"] == "BinaryOperator" and x["op"] == "=" and key(x["c"][0]).endswith("->asset_hash") and key(x["c"][1]).endswith("->asset_hash")
